@@ -34,17 +34,18 @@ def main():
     ap.add_argument('--tier', default='quick')
     ap.add_argument('--skip-tests', action='store_true')
     ap.add_argument('--keep', action='store_true')
+    ap.add_argument('--base', default='HEAD', help='commit of /repo the patch was written against (default: the current HEAD)')
     a = ap.parse_args()
     meta = json.load(open(os.path.join(a.src, 'meta.json')))
     prop = meta.get('property', a.id.split('_')[0])
     props = a.props.split(',') if a.props else [prop]
     wt = '/var/tmp/sw_%s' % a.id
     sh('git -C /repo worktree remove --force %s' % wt)
-    rc, out = sh('git -C /repo worktree add -q --detach %s HEAD' % wt)
+    rc, out = sh('git -C /repo worktree add -q --detach %s %s' % (wt, a.base))
     if rc:
         print('worktree failed', out)
         return 2
-    res = {'id': a.id, 'property': prop, 'evaluated_at_repo_head': sh('git -C /repo rev-parse --short HEAD')[1].strip().splitlines()[-1]}
+    res = {'id': a.id, 'property': prop, 'evaluated_at_repo_head': sh('git -C /repo rev-parse --short %s' % a.base)[1].strip().splitlines()[-1]}
     try:
         rc, out = sh('git -C %s apply %s' % (wt, os.path.abspath(os.path.join(a.src, 'patch.diff'))))
         res['patch_applies'] = rc == 0
